@@ -410,7 +410,7 @@ def mutate_bytes(rng, p: bytes):
 
 def check_bytes_key(ctx, rng, key, ser, var):
     name = ser_name(ser)
-    n_values = ctx.pick(12, 120)
+    n_values = ctx.pick(12, 300)
     empty_is_none = bool(getattr(ser, "EMPTY_IS_NONE", False))
     first_payloads = None
     for label, block, tmpl in contexts_for(key, ser):
@@ -484,7 +484,7 @@ def check_bytes_key(ctx, rng, key, ser, var):
         for tiny in (b"", b"\x00", b"\x00\x00", b"\x00\x00\x00\x00", b"\x01"):
             payload_laws(ctx, key, label, ser, block, tiny, "tiny", own=False)
         # fuzz: mutations of self-produced payloads and random bytes
-        n_fuzz = ctx.pick(40, 600)
+        n_fuzz = ctx.pick(40, 2000)
         for i in range(n_fuzz):
             if ctx.out_of_time():
                 break
